@@ -249,6 +249,29 @@ impl<'a> From<&'a edwards::EdwardsPoint> for NafLookupTable8<CachedPoint> {
     }
 }
 
+
+/// Verification hooks: raw access to the packed coordinates.
+#[cfg(curve25519_dalek_verif)]
+impl ExtendedPoint {
+    pub(crate) fn verif_inner(&self) -> F51x4Unreduced {
+        self.0
+    }
+    pub(crate) fn verif_from_inner(f: F51x4Unreduced) -> ExtendedPoint {
+        ExtendedPoint(f)
+    }
+}
+
+/// Verification hooks: raw access to the packed coordinates.
+#[cfg(curve25519_dalek_verif)]
+impl CachedPoint {
+    pub(crate) fn verif_inner(&self) -> F51x4Reduced {
+        self.0
+    }
+    pub(crate) fn verif_from_inner(f: F51x4Reduced) -> CachedPoint {
+        CachedPoint(f)
+    }
+}
+
 #[cfg(all(target_feature = "avx512ifma", target_feature = "avx512vl"))]
 #[cfg(test)]
 mod test {
